@@ -281,6 +281,11 @@ def check_spec_replay(prop, tier, seed, owners, overrides, n_quick, n_thorough, 
     oddb = odd_period_behaviours(rep, tier, seed, overrides)
     allb = tiny + bhvs + longb + oddb
     jobs = [(b, _kw_cycle(i, seed, **(base_kw or {})), seed * 100003 + i) for i, b in enumerate(allb)]
+    if prop == "C04":
+        # pilots inside the acceptance band but above the station's maximum (32.0005 A): recorded and applied as submitted
+        jobs += [(b, _kw_cycle(i + 2, seed, eps_pilots=True, **(base_kw or {})), seed * 100003 + i)
+                 for i, b in enumerate(bhvs[:len(bhvs) // 4])]
+        allb = allb + bhvs[:len(bhvs) // 4]
     if prop == "C02":
         # the ledger ties three separately stored quantities together for ANY battery model: the same behaviours with
         # two-stage batteries (continuous and stepwise), where only the implementation's own numbers are compared
